@@ -20,6 +20,10 @@ def gen_cases(ctx, n_grammars, n_inputs):
     cases = []
     for g in G.classic_corpus():
         cases.append((g, G.inputs_for(rng, g, n_inputs * 2)))
+    for src in G.gc_corpus()[:ctx.n(40, 120)]:
+        g = G.from_text(src)
+        ctx.count("family_gc_corpus")
+        cases.append((g, G.inputs_for(rng, g, n_inputs)))
     fams = [("random", lambda: G.random_grammar(rng)),
             ("reduced", lambda: G.reduced_random_grammar(rng)),
             ("nullable", lambda: G.nullable_heavy(rng)),
@@ -27,8 +31,9 @@ def gen_cases(ctx, n_grammars, n_inputs):
             ("exprnoprec", lambda: G.expr_grammar(rng, with_prec=False)),
             ("notlalr", lambda: G.not_lalr_template(rng)),
             ("layered", lambda: G.layered_grammar(rng).reduced()),
-            ("chain", lambda: G.chain_grammar(rng).reduced())]
-    weights = [2, 5, 4, 2, 1, 2, 8, 4]
+            ("chain", lambda: G.chain_grammar(rng).reduced()),
+            ("notlalr3", lambda: G.not_lalr_multi(rng).reduced())]
+    weights = [2, 5, 4, 2, 1, 2, 8, 4, 3]
     while len(cases) < n_grammars:
         name, f = rng.choices(fams, weights)[0]
         g = f()
